@@ -78,6 +78,12 @@ class SQLLineageApp:
                             Path(payload[param])
                         ):
                             return self.handle_403(start_response)
+                    if payload.get("f") and not self.is_path_allowed(
+                        Path(payload["f"]).parent
+                    ):
+                        # /directory lists the folder containing f, so that folder, the
+                        # path actually accessed, must be allowed too (f may be root_path)
+                        return self.handle_403(start_response)
                     data = self.routes[path_info](payload)
                     return self.handle_200_json(start_response, data)
                 else:
